@@ -124,6 +124,36 @@ def witness_c12d(ctx):
                       seam="read_hvsr_object_from_file")
 
 
+def single_window_blocks(ctx, rng):
+    """azimuths that hold ONE window each, next to one another and next to longer blocks (a single long window per azimuth is what an azimuthal analysis of
+    one recording gives): the curve numbering of every block then reads 1, 1, 1, ... (seed C12-W of round 9 split blocks where the numbering decreases)"""
+    import hvsrpy
+    for j in range(ctx.budget(8, 60)):
+        naz = int(rng.integers(2, 7))
+        counts = [1] * naz if j % 3 == 0 else [int(rng.choice([1, 1, 2, 3])) for _ in range(naz)]
+        freq = hvgen.gen_freq(rng)
+        rows = [hvgen.gen_curve_set(rng, freq, k, outliers=False) for k in counts]
+        azs = sorted(float(a) for a in rng.choice(np.arange(0, 180, 5), naz, replace=False))
+        m = Mirror.az(7000 + j, freq, rows, azs)
+        m.obj.meta["processing_method"] = "azimuthal"
+        fname = os.path.join(WORK, f"c12_s{j}.csv")
+        case = dict(kind="A", freq=np.asarray(freq).tolist(), rows_per_az=[np.asarray(r).tolist() for r in rows], azimuths=azs, ops=[])
+        try:
+            hvsrpy.write_hvsr_object_to_file(m.obj, fname)
+            back = hvsrpy.read_hvsr_object_from_file(fname)
+            bad = hvgen.cmp_state(hvgen.impl_state(m.obj), hvgen.impl_state(back))
+            got = [len(h.amplitude) for h in back.hvsrs]
+        except hvgen.STAT_ERRS + (KeyError, IndexError) as e:
+            bad, got = ["error: " + type(e).__name__ + ": " + str(e)[:80]], None
+        finally:
+            if os.path.exists(fname):
+                os.remove(fname)
+        ctx.supporting["single_window_block_roundtrips"] = ctx.supporting.get("single_window_block_roundtrips", 0) + 1
+        if bad:
+            ctx.violation("read-back-equals-written-object", dict(case=case, windows_per_azimuth_written=counts, windows_per_azimuth_read_back=got, differing=bad),
+                          seam="read_hvsr_object_from_file")
+
+
 def run(ctx):
     ctx.rule = ("histories (range updates, FDWRA, time masks, manual rejections) on traditional and azimuthal objects, then write -> independent parse of the file "
                 "(json header, labels, numeric columns) -> read back; compared bit for bit: frequencies, curves, masks, search range, peaks, every statistic; derived columns "
@@ -134,6 +164,7 @@ def run(ctx):
     rng = np.random.default_rng(ctx.seed)
     n = ctx.budget(100, 1500)
     witness_c12d(ctx)
+    single_window_blocks(ctx, np.random.default_rng(ctx.seed + 12))
     hists = [witness_c12c()]
     for i in range(1, n):
         kind = "T" if i % 2 == 0 else "A"
